@@ -8,7 +8,7 @@ from ..astutil import call_name, guards, is_self_attr, names_read, same_expr
 from ..frontend import AnalysisError, FunctionInfo, dotted, enclosing_stmt, norm, parent, walk_local
 from ..paths import conds_on, paths, stmts_on
 from ..report import Ctx
-from .common import EVALUATOR, INDIVIDUAL, PROBLEM, receiver_may_be
+from .common import EVALUATOR, INDIVIDUAL, PROBLEM, check_yields_all, receiver_may_be
 
 LEVEL_TEXT = (
     "Static rules over every Evaluator.evaluate_async implementation and every Problem.evaluate implementation: "
@@ -135,9 +135,7 @@ def rule_r1_r2(ctx: Ctx) -> None:
                    paired and order_ok, "" if paired and order_ok else
                    (why if not paired else f"pool.{site.func.attr} does not preserve input order"))
         # ---- every input individual is yielded (trackers post-process what is yielded)
-        ys = [y for y in walk_local(f.node) if isinstance(y, (ast.Yield, ast.YieldFrom))]
-        ctx.ob("C13.R1", f, ys[0] if ys else f.node, "evaluate_async yields the individuals", bool(ys),
-               "" if ys else "nothing is yielded: trackers never see the evaluated individuals")
+        check_yields_all(ctx, "C13.R1", f)
 
 
 def _ancestors(n):
